@@ -3,7 +3,12 @@
      mode 0: tgerr.New(code, msg) gave Type = ty, Argument = arg (arg = -1, ty = [] encodes a panic).
      mode 1: tgerr.FloodWait on tgerr.New(420, msg) with a recording clock:
              arg = duration in ns handed to clock.Timer, or -1 when no timer was created;
-             ty unused. *)
+             ty unused.
+     mode 2: tgerr.FloodWait on a fake clock driven by a script. ty = timer :: idx :: code :: steps
+             where steps are clock advances in ns (>= 0) or -1 for "cancel the context";
+             timer = duration handed to clock.Timer (-1: none), idx = index of the step after
+             which FloodWait returned (-1: before any step, -2: still blocked at the end),
+             code = 1 retry (true, err), 2 context error, 3 not a flood wait (false, err), 0 blocked. *)
 From Coq Require Import List ZArith Bool.
 From TD Require Import Lib.RunLib Model.TgErr.
 Import ListNotations.
@@ -14,9 +19,23 @@ Definition ok (c : case) : bool :=
   let '(mode, msg, ty, arg) := c in
   if mode =? 0 then
     let '(t, a) := parse msg in zlist_eqb t ty && (a =? arg)
-  else
+  else if mode =? 1 then
     match flood_timer msg with
     | Some d => d =? arg
     | None => arg =? -1
+    end
+  else
+    match ty with
+    | timer :: idx :: code :: steps =>
+      let script := map (fun z => if z <? 0 then FwCancel else FwAdvance z) steps in
+      let '(t, r) := flood_wait_run msg script in
+      (match t with Some d => d =? timer | None => timer =? -1 end) &&
+      (match r with
+       | Some (i, FwRetry) => (idx =? i) && (code =? 1)
+       | Some (i, FwCtxErr) => (idx =? i) && (code =? 2)
+       | Some (i, FwNotFlood) => (idx =? i) && (code =? 3)
+       | None => (idx =? -2) && (code =? 0)
+       end)
+    | _ => false
     end.
 Definition mismatches (cs : list case) : list nat := mismatch_idx ok cs.
